@@ -238,9 +238,16 @@ type scen struct {
 	outcomes string // all200 | mixed
 	kills    bool
 	eventual bool
+	directed string // "" | race3 | emptybody: a scripted interleaving over a forced file set
 }
 
 func pickScen() scen {
+	if tag == "c07" && rnd.Chance(4) {
+		return scen{kind: "race3", nthreads: 3, policy: "directed", outcomes: "all200", directed: "race3"}
+	}
+	if tag == "c08" && rnd.Chance(4) {
+		return scen{kind: "emptybody", nthreads: 2, policy: "directed", outcomes: Pick(rnd, []string{"all200", "mixed"}), directed: "emptybody"}
+	}
 	if tag == "c07" {
 		switch rnd.Intn(10) {
 		case 0, 1, 2:
@@ -344,6 +351,10 @@ func scenario() {
 	if tag == "c08" {
 		modeOn = rnd.Chance(95)
 	}
+	forced := sc.directed != ""
+	if forced {
+		modeOn = true
+	}
 
 	// ---- count files written by the real library ----
 	base := time.Date(2024, 1, 1, 0, 0, 0, 0, time.UTC).Add(time.Duration(rnd.Intn(300)) * day)
@@ -352,28 +363,37 @@ func scenario() {
 	if sc.nthreads >= 2 && rnd.Chance(50) {
 		nWeeks, nProgs = 1, 1+rnd.Intn(2)
 	}
+	if forced {
+		nWeeks, nProgs = 1, 2
+	}
+	forcedNow := base.Add(time.Duration(rnd.Intn(7))*day + 10*time.Hour)
 	pstart := rnd.Intn(len(progs))
 	used := map[string]bool{}
 	var goVersions, progNames []string
 	for wk := 0; wk < nWeeks; wk++ {
 		for pi := 0; pi < nProgs; pi++ {
-			if !rnd.Chance(80) {
+			if !forced && !rnd.Chance(80) {
 				continue
 			}
 			p := progs[(pstart+pi)%len(progs)]
 			ndays := 1
-			if rnd.Chance(25) {
+			if !forced && rnd.Chance(25) {
 				ndays = 2 // the same program started on two days of the week: same end, different begin
 			}
 			for k := 0; k < ndays; k++ {
 				now := base.Add(time.Duration(wk*7+rnd.Intn(7))*day + time.Duration(rnd.Intn(86400))*time.Second)
+				if forced {
+					now = forcedNow
+				}
 				key := p.path + p.ver + now.Format("2006-01-02")
 				if used[key] {
 					continue
 				}
 				used[key] = true
 				var ctrs [][2]int64
-				if !rnd.Chance(15) { // else: a file without counters
+				if forced {
+					ctrs = [][2]int64{{int64(pi), int64(1 + rnd.Intn(5))}, {3, int64(1 + rnd.Intn(5))}}
+				} else if !rnd.Chance(15) { // else: a file without counters
 					for ci := range ctrNames {
 						if rnd.Chance(55) {
 							ctrs = append(ctrs, [2]int64{int64(ci), int64(1 + rnd.Intn(5))})
@@ -385,7 +405,7 @@ func scenario() {
 		}
 	}
 	// malformed count files
-	if rnd.Chance(30) {
+	if !forced && rnd.Chance(30) {
 		var donor []byte
 		es, _ := os.ReadDir(w.local)
 		for _, e := range es {
@@ -473,13 +493,16 @@ func scenario() {
 		w.blob(data)
 	}
 	rawBody := func(s string) []byte { return []byte(fmt.Sprintf("{\"Week\":\"%s\",\"note\":\"pre-existing %d\"}", s, rnd.Intn(1000000))) }
-	upPresent := rnd.Chance(60)
+	upPresent := rnd.Chance(60) || forced
 	if upPresent {
 		os.MkdirAll(w.up, 0777)
 	}
 	pre := 12
 	if sc.nthreads >= 2 {
 		pre = 8
+	}
+	if forced {
+		pre = -100
 	}
 	wkR := func() string { return Pick(rnd, weekList) }
 	if rnd.Chance(pre) {
@@ -505,18 +528,18 @@ func scenario() {
 		out.Note("pre-stray-ready")
 	}
 	staleLock := ""
-	if rnd.Chance(5) && !sc.eventual {
+	if rnd.Chance(5) && !sc.eventual && !forced {
 		staleLock = wkR()
 		os.MkdirAll(w.up, 0777)
 		os.WriteFile(filepath.Join(w.up, staleLock+".json.lock"), nil, 0666)
 		upPresent = true
 		out.Note("pre-stale-lock")
 	}
-	if rnd.Chance(4) {
+	if !forced && rnd.Chance(4) {
 		addRaw(w.local, "2099-01-01.json", rawBody("f"))
 		out.Note("pre-future-ready")
 	}
-	if rnd.Chance(2) {
+	if !forced && rnd.Chance(2) {
 		addRaw(w.local, "x.json", rawBody("x"))
 		out.Note("pre-short-name")
 	}
@@ -526,7 +549,7 @@ func scenario() {
 	lastEnd := ends[len(ends)-1]
 	asofStr := ""
 	var asof time.Time
-	if rnd.Chance(60) {
+	if !forced && rnd.Chance(60) {
 		asof = base.Add(-time.Duration(10+rnd.Intn(20)) * day)
 		if rnd.Chance(12) {
 			asof = base.Add(time.Duration(rnd.Intn(10)) * day) // on/after some begin: those weeks are not uploadable
@@ -567,8 +590,11 @@ func scenario() {
 	}
 	starts := make([]time.Time, nth)
 	starts[0] = genStart()
+	if forced {
+		starts[0] = lastEnd.Add(time.Duration(1+rnd.Intn(5)) * day)
+	}
 	for i := 1; i < nth; i++ {
-		if rnd.Chance(70) {
+		if forced || rnd.Chance(70) {
 			starts[i] = starts[0]
 		} else {
 			starts[i] = genStart()
@@ -738,6 +764,9 @@ func scenario() {
 		}
 		nlog := len(vhttp.Log)
 		info := s.Step(tids[i])
+		if len(vhttp.Log) > nlog && len(vhttp.Log[len(vhttp.Log)-1].Body) == 0 {
+			out.Note("observation-empty-body-posted")
+		}
 		calls[i]++
 		if len(vhttp.Log) > nlog {
 			r := vhttp.Log[len(vhttp.Log)-1]
@@ -815,6 +844,42 @@ func scenario() {
 	main := make([]int, sc.nthreads)
 	for i := range main {
 		main[i] = i
+	}
+	// scripted interleavings: run thread tid until it is parked before a call satisfying until
+	type dstep struct {
+		tid   int
+		until func(ci callInfo, calls int) bool
+	}
+	runDirected := func(ds []dstep) {
+		for _, d := range ds {
+			for budget > 0 && alive(d.tid) && !d.until(w.classify(s.Last(tids[d.tid]).Label), calls[d.tid]) {
+				budget--
+				stepThread(d.tid)
+			}
+		}
+	}
+	never := func(callInfo, int) bool { return false }
+	switch sc.directed {
+	case "race3":
+		// C=0 creates W.json and pauses before creating local.W.json; E=1 sees W.json, deletes the
+		// count files and uploads W.json; B=2 listed the directory before all that, reads one file,
+		// misses the other, and finds neither report nor marker in its snapshot.
+		runDirected([]dstep{
+			{2, func(ci callInfo, n int) bool { return n >= 2 }},
+			{0, func(ci callInfo, n int) bool {
+				return ci.op == "OpenFile" && strings.HasPrefix(filepath.Base(ci.path), "local.")
+			}},
+			{1, func(ci callInfo, n int) bool { return ci.op == "ReadFile" && ci.phase == 2 }},
+			{2, func(ci callInfo, n int) bool { return ci.op == "Stat" }},
+			{1, never}, {2, never}, {0, never},
+		})
+		sc.policy = "seq"
+	case "emptybody":
+		runDirected([]dstep{
+			{0, func(ci callInfo, n int) bool { return ci.op == "Write" }},
+			{1, never}, {0, never},
+		})
+		sc.policy = "seq"
 	}
 	runUntilQuiet(main, sc.policy)
 	quietAt := nsteps
